@@ -3,12 +3,21 @@
 // ociserver.New over a recording backend, and the observation is whether the backend
 // received exactly that string in that position ("the predicates agree with what the HTTP
 // routing layer accepts as repository names, tags and digests in URLs").
+//
+// Every string is sent in the canonical encoding net/url produces from the decoded form
+// (url.URL{Path: ...}, no RawPath) and in other, equivalent percent-encoded spellings of the same
+// URL (unnecessary escapes, lower-case hex digits, sub-delimiters left literal, escaped slashes,
+// '+' for a space in a query). The latter are written into a request line and read back by
+// http.ReadRequest, exactly as a server reads them, so URL.RawPath / URL.RawQuery hold the
+// spelling and URL.Path the decoded form.
 package main
 
 import (
+	"bufio"
 	"context"
 	"fmt"
 	"io"
+	"math/rand"
 	"net/http"
 	"net/http/httptest"
 	"net/url"
@@ -79,6 +88,9 @@ const (
 	okRepo   = "okrepo/x"
 	okRepo2  = "other/repo"
 	okDigest = "sha256:0123456789abcdef0123456789abcdef0123456789abcdef0123456789abcdef"
+	// an upload ID as it appears in a URL (base64.RawURLEncoding) and as the backend receives it
+	okUploadID64 = "c29tZS11cGxvYWQ"
+	okUploadID   = "some-upload"
 )
 
 type endpoint struct {
@@ -87,7 +99,10 @@ type endpoint struct {
 	Method string
 	Path   func(w string) string
 	Query  func(w string) url.Values
-	// where the backend must have received w: method name and argument index (after ctx)
+	WKey   string // the query key whose value is w ("" when w is in the path)
+	// where the backend must have received w: method name and argument index (after ctx);
+	// Arg < 0: no argument carries w at the point where the recording backend fails, the call
+	// itself (with Others as sent) is the evidence that the router accepted w
 	Backend string
 	Arg     int
 	// other arguments that must have arrived as sent (index -> value), so that a request routed
@@ -105,6 +120,12 @@ var endpoints = []endpoint{
 	{Pos: "PRepo", Name: "POST mount (to)", Method: "POST", Path: func(w string) string { return "/v2/" + w + "/blobs/uploads/" },
 		Query: func(w string) url.Values { return url.Values{"mount": {okDigest}, "from": {okRepo2}} }, Backend: "MountBlob", Arg: 1, Others: map[int]string{0: okRepo2, 2: okDigest}},
 
+	{Pos: "PRepo", Name: "POST blobs/uploads/?digest=", Method: "POST", Path: func(w string) string { return "/v2/" + w + "/blobs/uploads/" },
+		Query: func(w string) url.Values { return url.Values{"digest": {okDigest}} }, Backend: "PushBlob", Arg: 0, Others: map[int]string{1: okDigest}},
+	{Pos: "PRepo", Name: "GET blobs/uploads/<id>", Method: "GET", Path: func(w string) string { return "/v2/" + w + "/blobs/uploads/" + okUploadID64 }, Backend: "PushBlobChunkedResume", Arg: 0, Others: map[int]string{1: okUploadID}},
+	{Pos: "PRepo", Name: "PUT blobs/uploads/<id>?digest=", Method: "PUT", Path: func(w string) string { return "/v2/" + w + "/blobs/uploads/" + okUploadID64 },
+		Query: func(w string) url.Values { return url.Values{"digest": {okDigest}} }, Backend: "PushBlobChunkedResume", Arg: 0, Others: map[int]string{1: okUploadID}},
+
 	{Pos: "PTagRef", Name: "GET manifests/<ref>", Method: "GET", Path: func(w string) string { return "/v2/" + okRepo + "/manifests/" + w }, Backend: "GetTag", Arg: 1, Others: map[int]string{0: okRepo}},
 	{Pos: "PTagRef", Name: "HEAD manifests/<ref>", Method: "HEAD", Path: func(w string) string { return "/v2/" + okRepo + "/manifests/" + w }, Backend: "ResolveTag", Arg: 1, Others: map[int]string{0: okRepo}},
 	{Pos: "PTagRef", Name: "DELETE manifests/<ref>", Method: "DELETE", Path: func(w string) string { return "/v2/" + okRepo + "/manifests/" + w }, Backend: "DeleteTag", Arg: 1, Others: map[int]string{0: okRepo}},
@@ -119,41 +140,161 @@ var endpoints = []endpoint{
 	{Pos: "PDigest", Name: "DELETE blobs/<d>", Method: "DELETE", Path: func(w string) string { return "/v2/" + okRepo + "/blobs/" + w }, Backend: "DeleteBlob", Arg: 1, Others: map[int]string{0: okRepo}},
 	{Pos: "PDigest", Name: "GET referrers/<d>", Method: "GET", Path: func(w string) string { return "/v2/" + okRepo + "/referrers/" + w }, Backend: "Referrers", Arg: 1, Others: map[int]string{0: okRepo}},
 	{Pos: "PDigest", Name: "POST mount=<d>", Method: "POST", Path: func(w string) string { return "/v2/" + okRepo + "/blobs/uploads/" },
-		Query: func(w string) url.Values { return url.Values{"mount": {w}, "from": {okRepo2}} }, Backend: "MountBlob", Arg: 2, Others: map[int]string{0: okRepo2, 1: okRepo}},
+		Query: func(w string) url.Values { return url.Values{"mount": {w}, "from": {okRepo2}} }, WKey: "mount", Backend: "MountBlob", Arg: 2, Others: map[int]string{0: okRepo2, 1: okRepo}},
+	{Pos: "PDigest", Name: "POST blobs/uploads/?digest=<d>", Method: "POST", Path: func(w string) string { return "/v2/" + okRepo + "/blobs/uploads/" },
+		Query: func(w string) url.Values { return url.Values{"digest": {w}} }, WKey: "digest", Backend: "PushBlob", Arg: 1, Others: map[int]string{0: okRepo}},
+	{Pos: "PDigest", Name: "PUT blobs/uploads/<id>?digest=<d>", Method: "PUT", Path: func(w string) string { return "/v2/" + okRepo + "/blobs/uploads/" + okUploadID64 },
+		Query: func(w string) url.Values { return url.Values{"digest": {w}} }, WKey: "digest", Backend: "PushBlobChunkedResume", Arg: -1, Others: map[int]string{0: okRepo, 1: okUploadID}},
 
 	{Pos: "PFrom", Name: "POST mount from=<w>", Method: "POST", Path: func(w string) string { return "/v2/" + okRepo + "/blobs/uploads/" },
-		Query: func(w string) url.Values { return url.Values{"mount": {okDigest}, "from": {w}} }, Backend: "MountBlob", Arg: 0, Others: map[int]string{1: okRepo, 2: okDigest}},
+		Query: func(w string) url.Values { return url.Values{"mount": {okDigest}, "from": {w}} }, WKey: "from", Backend: "MountBlob", Arg: 0, Others: map[int]string{1: okRepo, 2: okDigest}},
+}
+
+// ---------------------------------------------------------------- spellings
+
+const unreserved = "ABCDEFGHIJKLMNOPQRSTUVWXYZabcdefghijklmnopqrstuvwxyz0123456789-._~"
+
+// bytes that may stand literally in a path segment / in a query value of a request target that
+// Go's server side parses without loss (RFC 3986 pchar minus what net/url treats specially)
+const literalInPath = unreserved + "!$&'()*+,;=:@"
+const literalInQuery = unreserved + "!$'()*,:@/?"
+
+var spellModes = []string{"minimal", "punctuation", "all", "all+slash", "first", "last", "random", "alnum"}
+
+// spell writes w as a percent-encoded spelling: bytes that cannot stand literally are always
+// escaped, the mode chooses which of the others are escaped although they need not be.
+func spell(r *rand.Rand, mode string, w string, inQuery bool) string {
+	literal := literalInPath
+	if inQuery {
+		literal = literalInQuery
+	}
+	hexCase := r.Intn(3) // 0 upper, 1 lower, 2 mixed
+	var sb strings.Builder
+	for i := 0; i < len(w); i++ {
+		c := w[i]
+		isAlnum := c < 0x80 && strings.IndexByte(alnum, c) >= 0
+		var esc bool
+		switch mode {
+		case "minimal":
+		case "punctuation":
+			esc = !isAlnum && c != '/'
+		case "all":
+			esc = c != '/'
+		case "all+slash":
+			esc = true
+		case "first":
+			esc = i == 0
+		case "last":
+			esc = i == len(w)-1
+		case "random":
+			esc = r.Intn(3) == 0
+		case "alnum":
+			esc = isAlnum
+		}
+		switch {
+		case c == '/' && !inQuery && mode != "all+slash" && !(mode == "random" && esc):
+			sb.WriteByte(c) // a separator of the path
+		case !esc && strings.IndexByte(literal, c) >= 0:
+			sb.WriteByte(c)
+		case !esc && c == ' ' && inQuery:
+			sb.WriteByte('+')
+		default:
+			digits := "0123456789ABCDEF"
+			if hexCase == 1 || (hexCase == 2 && r.Intn(2) == 0) {
+				digits = "0123456789abcdef"
+			}
+			sb.WriteByte('%')
+			sb.WriteByte(digits[c>>4])
+			sb.WriteByte(digits[c&15])
+		}
+	}
+	return sb.String()
+}
+
+// canonicalSpelling is the spelling net/url itself produces for w in that place.
+func canonicalSpelling(w string, inQuery bool) string {
+	if inQuery {
+		return url.QueryEscape(w)
+	}
+	return (&url.URL{Path: "/" + w}).EscapedPath()[1:]
 }
 
 type routeObs struct {
-	Endpoint string  `json:"endpoint"`
-	Path     string  `json:"path"`
-	Query    string  `json:"query,omitempty"`
-	Status   int     `json:"status"`
-	Panic    string  `json:"panic,omitempty"`
-	Calls    []bcall `json:"backend_calls"`
-	Accepted string  `json:"accepted"` // OT | OF | OP
+	Endpoint string    `json:"endpoint"`
+	Path     string    `json:"path"`
+	Query    string    `json:"query,omitempty"`
+	Target   string    `json:"request_target,omitempty"` // the request line's target, when a spelling was given
+	Status   int       `json:"status"`
+	Panic    string    `json:"panic,omitempty"`
+	Calls    []bcall   `json:"backend_calls"`
+	Accepted string    `json:"accepted"` // OT | OF | OP
 	PV       [3]string `json:"predicates_repo_tag_digest"`
 }
 
-func runRoute(epIdx int, w string) (string, routeObs) {
+// buildRequest makes the server-side request for endpoint ep and string w. raw == nil: from the
+// decoded form (url.URL{Path}); otherwise *raw is the spelling of w to put on the request line.
+func buildRequest(ep endpoint, w string, raw *string) (*http.Request, string) {
+	body := ""
+	if ep.Method == "PUT" {
+		body = "{}"
+	}
+	if raw == nil {
+		u := &url.URL{Path: ep.Path(w)}
+		if ep.Query != nil {
+			u.RawQuery = ep.Query(w).Encode()
+		}
+		req := &http.Request{Method: ep.Method, URL: u, Proto: "HTTP/1.1", ProtoMajor: 1, ProtoMinor: 1,
+			Header: http.Header{}, Body: io.NopCloser(strings.NewReader(body)), Host: "example.test", RequestURI: u.RequestURI()}
+		if ep.Method == "PUT" {
+			req.Header.Set("Content-Type", "application/vnd.oci.image.manifest.v1+json")
+			req.ContentLength = int64(len(body))
+		}
+		return req, ""
+	}
+	var target string
+	if ep.WKey == "" {
+		const mark = "\x00"
+		pre, post, _ := strings.Cut(ep.Path(mark), mark)
+		target = pre + *raw + post
+		if ep.Query != nil {
+			target += "?" + ep.Query(w).Encode()
+		}
+	} else {
+		q := ep.Query(w)
+		q.Del(ep.WKey)
+		target = ep.Path(w) + "?"
+		if len(q) > 0 {
+			target += q.Encode() + "&"
+		}
+		target += ep.WKey + "=" + *raw
+	}
+	text := ep.Method + " " + target + " HTTP/1.1\r\nHost: example.test\r\n"
+	if ep.Method == "PUT" {
+		text += fmt.Sprintf("Content-Type: application/vnd.oci.image.manifest.v1+json\r\nContent-Length: %d\r\n", len(body))
+	}
+	text += "\r\n" + body
+	req, err := http.ReadRequest(bufio.NewReader(strings.NewReader(text)))
+	if err != nil {
+		panic(fmt.Sprintf("harness: request line %q does not parse: %v", target, err))
+	}
+	// the spelling must denote the same URL (this is re-checked in Coq on the string itself)
+	if req.URL.Path != ep.Path(w) {
+		panic(fmt.Sprintf("harness: target %q decodes to path %q, want %q", target, req.URL.Path, ep.Path(w)))
+	}
+	if ep.WKey != "" && req.URL.Query().Get(ep.WKey) != w {
+		panic(fmt.Sprintf("harness: target %q decodes to %s=%q, want %q", target, ep.WKey, req.URL.Query().Get(ep.WKey), w))
+	}
+	return req, target
+}
+
+func runRoute(epIdx int, w string, raw *string) (string, routeObs) {
 	ep := endpoints[epIdx]
 	var log []bcall
 	h := ociserver.New(recordingBackend(&log), nil)
-	u := &url.URL{Path: ep.Path(w)}
-	if ep.Query != nil {
-		u.RawQuery = ep.Query(w).Encode()
-	}
-	req := &http.Request{Method: ep.Method, URL: u, Proto: "HTTP/1.1", ProtoMajor: 1, ProtoMinor: 1,
-		Header: http.Header{}, Body: io.NopCloser(strings.NewReader("")), Host: "example.test", RequestURI: u.RequestURI()}
-	if ep.Method == "PUT" {
-		req.Header.Set("Content-Type", "application/vnd.oci.image.manifest.v1+json")
-		req.Body = io.NopCloser(strings.NewReader("{}"))
-		req.ContentLength = 2
-	}
+	req, target := buildRequest(ep, w, raw)
 	req = req.WithContext(context.Background())
 	rec := httptest.NewRecorder()
-	o := routeObs{Endpoint: ep.Name, Path: printable(u.Path), Query: u.RawQuery}
+	o := routeObs{Endpoint: ep.Name, Path: printable(req.URL.Path), Query: req.URL.RawQuery, Target: target}
 	panicked, pv := hx.Recover(func() { h.ServeHTTP(rec, req) })
 	o.Status = rec.Code
 	o.Calls = log
@@ -163,7 +304,10 @@ func runRoute(epIdx int, w string) (string, routeObs) {
 		o.Accepted = "OP"
 	} else {
 		for _, c := range log {
-			if c.Method != ep.Backend || len(c.Args) <= ep.Arg || c.Args[ep.Arg] != w {
+			if c.Method != ep.Backend {
+				continue
+			}
+			if ep.Arg >= 0 && (len(c.Args) <= ep.Arg || c.Args[ep.Arg] != w) {
 				continue
 			}
 			ok := true
@@ -178,6 +322,14 @@ func runRoute(epIdx int, w string) (string, routeObs) {
 		}
 	}
 	o.PV = [3]string{ob(ociref.IsValidRepository, w), ob(ociref.IsValidTag, w), ob(ociref.IsValidDigest, w)}
-	coq := fmt.Sprintf("ER %s %s (mkp OF %s %s %s) %s", ep.Pos, lit(w), o.PV[0], o.PV[1], o.PV[2], o.Accepted)
+	sp := "Canon"
+	if raw != nil {
+		inq := "false"
+		if ep.WKey != "" {
+			inq = "true"
+		}
+		sp = fmt.Sprintf("(Raw %s %s)", inq, lit(*raw))
+	}
+	coq := fmt.Sprintf("ER %s %s %s (mkp OF %s %s %s) %s", ep.Pos, lit(w), sp, o.PV[0], o.PV[1], o.PV[2], o.Accepted)
 	return coq, o
 }
